@@ -957,10 +957,16 @@ class TFLiteSupportedOperators:
     def constraint_mean_width(cls, op):
         """If Width axis is reduced its shape must be no greater than {}."""
         shape = op.inputs[0].shape
-        hi = 0 if len(shape) < 4 else 1
-        h, w = shape[hi : hi + 2]
+        if op.inputs[1].shape == []:
+            axis = [int(op.inputs[1].values)]
+        else:
+            axis = list(op.inputs[1].values)
+        # the width is the second last dimension (a 2D tensor AxB is treated as 1x1xAxB)
+        width_idx = len(shape) - 2
+        w = shape[width_idx]
         max_width = cls.mean_reduced_axis_max_size
-        return w <= max_width, f"Width is {w}"
+        reduced = any(int(ax) % len(shape) == width_idx for ax in axis)
+        return not reduced or w <= max_width, f"Width is {w}, shape is {shape}, axis is {axis}"
 
     @classmethod
     @docstring_format_args([mean_reduced_axis_max_size])
